@@ -386,35 +386,33 @@ Proof.
     + injection H as <- <-. left; reflexivity.
 Qed.
 
-Lemma drain_Inv : forall res fuel now pref s, Inv s -> 0 <= now ->
-  Inv (fst (fst (drain res fuel now pref s))).
+Definition dst (r : state * Z * list Z * bool) : state := fst (fst (fst r)).
+Definition dnow (r : state * Z * list Z * bool) : Z := snd (fst (fst r)).
+
+Section Script.
+Variables (res : Z -> nat -> bool) (dur : Z -> Z).
+Hypothesis Hdur : forall cb, 0 <= dur cb.
+
+Lemma drain_ok : forall fuel now pref s, Inv s -> 0 <= now ->
+  Inv (dst (drain res dur fuel now pref s)) /\ 0 <= dnow (drain res dur fuel now pref s).
 Proof.
-  induction fuel as [|f IH]; intros now pref s HI Hnow; cbn [drain]; [exact HI|].
+  induction fuel as [|f IH]; intros now pref s HI Hnow; cbn [drain]; [split; assumption|].
   destruct (iter res (choose pref (q s)) now s) as [s' o] eqn:It.
   assert (HI' : Inv s') by (replace s' with (fst (iter res (choose pref (q s)) now s)) by (rewrite It; reflexivity);
                             apply Inv_iter; assumption).
-  destruct o; [exact HI'|apply IH; assumption|apply IH; assumption].
+  destruct o as [| |cb]; [split; assumption|apply IH; assumption|apply IH; [assumption|]].
+  pose proof (Hdur cb). lia.
 Qed.
 
-Lemma drain_fuel_enough : forall res fuel now pref s, Inv s -> 0 <= now ->
-  (ripe now (q s) < fuel)%nat -> snd (drain res fuel now pref s) = true.
+Lemma drainf_ok : forall fuel nf now pref s, Inv s -> 0 <= now ->
+  Inv (fst (fst (drainf res dur fuel nf now pref s))) /\ 0 <= snd (fst (drainf res dur fuel nf now pref s)).
 Proof.
-  induction fuel as [|f IH]; intros now pref s HI Hnow Hf; [lia|]. cbn [drain].
+  induction fuel as [|f IH]; intros nf now pref s HI Hnow; destruct nf as [|nf']; cbn [drainf]; try (split; assumption).
   destruct (iter res (choose pref (q s)) now s) as [s' o] eqn:It.
   assert (HI' : Inv s') by (replace s' with (fst (iter res (choose pref (q s)) now s)) by (rewrite It; reflexivity);
                             apply Inv_iter; assumption).
-  destruct (iter_progress _ _ _ _ _ _ HI Hnow It) as [->|Hp]; [reflexivity|].
-  destruct o; [reflexivity|apply IH; try assumption; lia|apply IH; try assumption; lia].
-Qed.
-
-Lemma drainf_Inv : forall res fuel nf now pref s, Inv s -> 0 <= now ->
-  Inv (fst (drainf res fuel nf now pref s)).
-Proof.
-  induction fuel as [|f IH]; intros nf now pref s HI Hnow; destruct nf as [|nf']; cbn [drainf]; try exact HI.
-  destruct (iter res (choose pref (q s)) now s) as [s' o] eqn:It.
-  assert (HI' : Inv s') by (replace s' with (fst (iter res (choose pref (q s)) now s)) by (rewrite It; reflexivity);
-                            apply Inv_iter; assumption).
-  destruct o; [exact HI'|apply IH; assumption|apply IH; assumption].
+  destruct o as [| |cb]; [split; assumption|apply IH; assumption|apply IH; [assumption|]].
+  pose proof (Hdur cb). lia.
 Qed.
 
 Definition sop_wf (o : sop) : bool :=
@@ -426,70 +424,94 @@ Definition sop_wf (o : sop) : bool :=
   end.
 
 Definition cfg_ok (c : state * Z * list Z * bool) : Prop :=
-  match c with (s, now, _, fin) => Inv s /\ 0 <= now /\ fin = true end.
+  match c with (s, now, _, _) => Inv s /\ 0 <= now end.
 
-Lemma sstep_ok : forall res c o, cfg_ok c -> sop_wf o = true -> cfg_ok (sstep res c o).
+Lemma sstep_ok : forall extra c o, cfg_ok c -> sop_wf o = true -> cfg_ok (sstep res dur extra c o).
 Proof.
-  intros res [[[s now] pref] fin] o [HI [Hnow Hfin]] W. unfold sstep.
+  intros extra [[[s now] pref] fin] o [HI Hnow] W. unfold sstep.
+  assert (G : forall s1 now1 pref1, Inv s1 -> 0 <= now1 ->
+            cfg_ok (match drain res dur (S (length (q s1)) + extra) now1 pref1 s1 with
+                    | (s2, now2, pref2, f2) => (s2, now2, pref2, fin && f2) end)).
+  { intros s1 now1 pref1 H1 Hn1.
+    destruct (drain_ok (S (length (q s1)) + extra) now1 pref1 s1 H1 Hn1) as [A B].
+    destruct (drain res dur (S (length (q s1)) + extra) now1 pref1 s1) as [[[s2 now2] pref2] f2].
+    cbn in *. split; assumption. }
   destruct o as [rep ms|d| |d nf]; cbn [sop_wf] in W.
   - apply andb_prop in W. destruct W as [W1 W2]. apply Z.leb_le in W1.
-    set (s1 := schedule now (Z.of_nat (next s)) rep ms s).
-    assert (H1 : Inv s1) by (apply Inv_schedule; assumption).
-    destruct (drain res (S (length (q s1))) now pref s1) as [[s2 pref2] f2] eqn:Dr.
-    cbn [cfg_ok]. split; [|split; [assumption|]].
-    + replace s2 with (fst (fst (drain res (S (length (q s1))) now pref s1))) by (rewrite Dr; reflexivity).
-      apply drain_Inv; assumption.
-    + rewrite Hfin. cbn. replace f2 with (snd (drain res (S (length (q s1))) now pref s1)) by (rewrite Dr; reflexivity).
-      apply drain_fuel_enough; try assumption. pose proof (ripe_le_length now (q s1)). lia.
+    apply G; [apply Inv_schedule; assumption|assumption].
+  - apply Z.leb_le in W. apply G; [assumption|lia].
+  - apply G; [apply Inv_clear; assumption|assumption].
   - apply Z.leb_le in W.
-    destruct (drain res (S (length (q s))) (now + d) pref s) as [[s2 pref2] f2] eqn:Dr.
-    cbn [cfg_ok]. split; [|split; [lia|]].
-    + replace s2 with (fst (fst (drain res (S (length (q s))) (now + d) pref s))) by (rewrite Dr; reflexivity).
-      apply drain_Inv; [assumption|lia].
-    + rewrite Hfin. cbn. replace f2 with (snd (drain res (S (length (q s))) (now + d) pref s)) by (rewrite Dr; reflexivity).
-      apply drain_fuel_enough; try assumption; [lia|]. pose proof (ripe_le_length (now + d) (q s)). lia.
-  - set (s1 := clear now s).
-    assert (H1 : Inv s1) by (apply Inv_clear; assumption).
-    destruct (drain res (S (length (q s1))) now pref s1) as [[s2 pref2] f2] eqn:Dr.
-    cbn [cfg_ok]. split; [|split; [assumption|]].
-    + replace s2 with (fst (fst (drain res (S (length (q s1))) now pref s1))) by (rewrite Dr; reflexivity).
-      apply drain_Inv; assumption.
-    + rewrite Hfin. cbn. replace f2 with (snd (drain res (S (length (q s1))) now pref s1)) by (rewrite Dr; reflexivity).
-      apply drain_fuel_enough; try assumption. pose proof (ripe_le_length now (q s1)). lia.
-  - apply Z.leb_le in W.
-    destruct (drainf res (S (length (q s))) nf (now + d) pref s) as [s' pref'] eqn:Df.
-    assert (H0 : Inv s').
-    { replace s' with (fst (drainf res (S (length (q s))) nf (now + d) pref s)) by (rewrite Df; reflexivity).
-      apply drainf_Inv; [assumption|lia]. }
-    set (s1 := clear (now + d) s').
-    assert (H1 : Inv s1) by (apply Inv_clear; assumption).
-    destruct (drain res (S (length (q s1))) (now + d) pref' s1) as [[s2 pref2] f2] eqn:Dr.
-    cbn [cfg_ok]. split; [|split; [lia|]].
-    + replace s2 with (fst (fst (drain res (S (length (q s1))) (now + d) pref' s1))) by (rewrite Dr; reflexivity).
-      apply drain_Inv; [assumption|lia].
-    + rewrite Hfin. cbn. replace f2 with (snd (drain res (S (length (q s1))) (now + d) pref' s1)) by (rewrite Dr; reflexivity).
-      apply drain_fuel_enough; try assumption; [lia|]. pose proof (ripe_le_length (now + d) (q s1)). lia.
+    destruct (drainf_ok (S (length (q s)) + extra) nf (now + d) pref s HI ltac:(lia)) as [A B].
+    destruct (drainf res dur (S (length (q s)) + extra) nf (now + d) pref s) as [[s' now'] pref'].
+    cbn in A, B. apply G; [apply Inv_clear; assumption|assumption].
 Qed.
 
-Lemma run_script_ok : forall res sc c, cfg_ok c -> forallb sop_wf sc = true ->
-  cfg_ok (fold_left (sstep res) sc c).
+Lemma run_script_ok : forall extra sc c, cfg_ok c -> forallb sop_wf sc = true ->
+  cfg_ok (fold_left (sstep res dur extra) sc c).
 Proof.
   induction sc as [|o sc IH]; intros c Hc W; cbn; [assumption|].
   cbn in W. apply andb_prop in W. destruct W as [W1 W2]. apply IH; [apply sstep_ok; assumption|assumption].
 Qed.
 
-(* the scripted runs of the correspondence check: the fuel suffices (every wait ends with the
-   timer asleep) and the history satisfies the property, whatever the preference list is *)
-Lemma c31_script_lemma : forall res t0 pref sc, 0 <= t0 -> forallb sop_wf sc = true ->
-  match run_script res t0 pref sc with
-  | (s, _, _, fin) => fin = true /\ c31_ok (hist s) = true
+(* the scripted runs of the correspondence check: the history satisfies the property, whatever the
+   preference list, the callback durations and the fuel are *)
+Lemma c31_script_lemma : forall extra t0 pref sc, 0 <= t0 -> forallb sop_wf sc = true ->
+  match run_script res dur extra t0 pref sc with
+  | (s, _, _, _) => c31_ok (hist s) = true
   end.
 Proof.
-  intros res t0 pref sc Ht W. unfold run_script.
-  pose proof (run_script_ok res sc (init, t0, pref, true)) as H.
-  destruct (fold_left (sstep res) sc (init, t0, pref, true)) as [[[s now] pr] fin].
-  destruct H as [HI [_ Hf]]; [cbn; split; [apply Inv_init|split; [assumption|reflexivity]]|assumption|].
-  split; [assumption|]. unfold c31_ok. rewrite (inv_verd _ HI). reflexivity.
+  intros extra t0 pref sc Ht W. unfold run_script.
+  pose proof (run_script_ok extra sc (init, t0, pref, true)) as H.
+  destruct (fold_left (sstep res dur extra) sc (init, t0, pref, true)) as [[[s now] pr] fin].
+  destruct H as [HI _]; [cbn; split; [apply Inv_init|assumption]|assumption|].
+  unfold c31_ok. rewrite (inv_verd _ HI). reflexivity.
+Qed.
+End Script.
+
+(* with instantaneous callbacks the fuel always suffices: every wait ends with the timer asleep *)
+Definition dur0 (cb : Z) : Z := 0.
+
+Lemma drain_fuel_enough : forall res fuel now pref s, Inv s -> 0 <= now ->
+  (ripe now (q s) < fuel)%nat -> snd (drain res dur0 fuel now pref s) = true.
+Proof.
+  induction fuel as [|f IH]; intros now pref s HI Hnow Hf; [lia|]. cbn [drain].
+  destruct (iter res (choose pref (q s)) now s) as [s' o] eqn:It.
+  assert (HI' : Inv s') by (replace s' with (fst (iter res (choose pref (q s)) now s)) by (rewrite It; reflexivity);
+                            apply Inv_iter; assumption).
+  destruct (iter_progress _ _ _ _ _ _ HI Hnow It) as [->|Hp]; [reflexivity|].
+  destruct o as [| |cb]; [reflexivity|apply IH; try assumption; lia|].
+  unfold dur0. rewrite Z.add_0_r. apply IH; try assumption; lia.
+Qed.
+
+Lemma c31_script_fuel_lemma : forall res extra t0 pref sc, 0 <= t0 -> forallb sop_wf sc = true ->
+  snd (run_script res dur0 extra t0 pref sc) = true.
+Proof.
+  intros res extra t0 pref sc Ht W. unfold run_script.
+  assert (Hd : forall cb, 0 <= dur0 cb) by (intros; unfold dur0; lia).
+  assert (G : forall sc c, cfg_ok c -> snd c = true -> forallb sop_wf sc = true ->
+              snd (fold_left (sstep res dur0 extra) sc c) = true).
+  { induction sc0 as [|o sc0 IH]; intros c Hc Hf Wf; cbn; [assumption|].
+    cbn in Wf. apply andb_prop in Wf. destruct Wf as [W1 W2].
+    apply IH; [apply sstep_ok; assumption| |assumption].
+    destruct c as [[[s now] pr] fin]. cbn in Hf. subst fin. destruct Hc as [HI Hnow]. unfold sstep.
+    assert (F : forall s1 now1 pref1, Inv s1 -> 0 <= now1 ->
+              snd (match drain res dur0 (S (length (q s1)) + extra) now1 pref1 s1 with
+                   | (s2, now2, pref2, f2) => (s2, now2, pref2, true && f2) end) = true).
+    { intros s1 now1 pref1 H1 Hn1.
+      pose proof (drain_fuel_enough res (S (length (q s1)) + extra) now1 pref1 s1 H1 Hn1) as E.
+      destruct (drain res dur0 (S (length (q s1)) + extra) now1 pref1 s1) as [[[s2 now2] pref2] f2].
+      cbn in *. apply E. pose proof (ripe_le_length now1 (q s1)). lia. }
+    destruct o as [rep ms|d| |d nf]; cbn [sop_wf] in W1.
+    - apply andb_prop in W1. destruct W1 as [A B]. apply Z.leb_le in A.
+      apply F; [apply Inv_schedule; assumption|assumption].
+    - apply Z.leb_le in W1. apply F; [assumption|lia].
+    - apply F; [apply Inv_clear; assumption|assumption].
+    - apply Z.leb_le in W1.
+      destruct (drainf_ok res dur0 Hd (S (length (q s)) + extra) nf (now + d) pr s HI ltac:(lia)) as [A B].
+      destruct (drainf res dur0 (S (length (q s)) + extra) nf (now + d) pr s) as [[s' now'] pref'].
+      cbn in A, B. apply F; [apply Inv_clear; assumption|assumption]. }
+  apply G; [cbn; split; [apply Inv_init|assumption]|reflexivity|assumption].
 Qed.
 
 (* ---------------------------------------------------------------- clause 1 stated directly *)
@@ -606,7 +628,7 @@ Definition nv_script : list sop :=
 
 Lemma c31_nonvacuous_lemma :
   forallb sop_wf nv_script = true /\
-  match run_script nv_res 1000000000 [2; 1; 0] nv_script with
+  match run_script nv_res dur0 0 1000000000 [2; 1; 0] nv_script with
   | (s, _, _, fin) =>
       fin = true /\
       filter (fun h => match h with HFire _ _ _ _ => true | HClear _ _ => true | _ => false end) (hist s) =
@@ -714,3 +736,17 @@ Proof.
     pose proof (sched_ids_lemma res ops1 _ _ _ _ _ Hs) as A. fold s1 in A.
     pose proof (H2 _ _ _ _ Hf). lia.
 Qed.
+
+(* two events due in the same wake-up: the callback of the first takes 5 ms of clock time, the
+   second (repeating, 10 ms) therefore runs at t + 5 ms and is re-armed from THAT reading of the
+   clock: it runs again at t + 15 ms, not at t + 10 ms *)
+Definition nv_slow_dur (cb : Z) : Z := if cb =? 0 then 5000000 else 0.
+Lemma c31_nonvacuous_slow_lemma :
+  match run_script (fun _ _ => true) nv_slow_dur 4 0 [0; 1]
+          [SSched false 10; SSched true 10; SAdv 10000000; SAdv 5000000; SAdv 4999999; SAdv 1] with
+  | (s, now, _, fin) =>
+      fin = true /\ now = 25000000 /\
+      filter (fun h => match h with HFire _ _ _ _ => true | _ => false end) (hist s) =
+        [HFire 0 0 10000000 true; HFire 1 1 15000000 true; HFire 1 1 25000000 true]
+  end.
+Proof. vm_compute. repeat split; reflexivity. Qed.
